@@ -437,9 +437,6 @@ Section CodecTotal.
   Qed.
 End CodecTotal.
 
-Lemma defend_total t req resp : exists p, defend t req resp = p.
-Proof. eauto. Qed.
-
 (* ------------------------------------------------------------------ UDP truncation, TCP framing *)
 
 Lemma udp_finish_short wire : lenN wire <= c18_MaxUDPSize -> udp_finish wire = wire.
